@@ -149,15 +149,14 @@ def build(cls, w=8):
 
 class ParamReg(py4hw.Logic):
     """parameterised register after test/interactive/tb_Parameter.py (shared module name; its `initial` method is left
-    out: the transpiler raises NameError getBody on it)"""
+    out: the transpiler raises NameError getBody on it).  The parameter is used inside the transpiled body."""
 
-    def __init__(self, parent, name, a, load, r, init_value, pname='INIT'):
+    def __init__(self, parent, name, a, load, r, init_value):
         super().__init__(parent, name)
         self.a = self.addIn('a', a)
         self.load = self.addIn('load', load)
         self.r = self.addOut('r', r)
-        self.pname = pname
-        self.addParameter(pname, init_value)
+        self.addParameter('INIT', init_value)
 
     def structureName(self):
         return 'ParamReg_{}'.format(self.r.getWidth())
@@ -167,22 +166,87 @@ class ParamReg(py4hw.Logic):
             self.r.prepare(self.a.get() + self.getParameterValue('INIT'))
 
 
-class ParamTop(py4hw.Logic):
-    def __init__(self, parent, name, a, load, r, init_value, pname='INIT', direct=False):
+class ParamRegKw(py4hw.Logic):
+    """same, the parameter name is a Verilog reserved word"""
+
+    def __init__(self, parent, name, a, load, r, init_value):
+        super().__init__(parent, name)
+        self.a = self.addIn('a', a)
+        self.load = self.addIn('load', load)
+        self.r = self.addOut('r', r)
+        self.addParameter('table', init_value)
+
+    def structureName(self):
+        return 'ParamRegKw_{}'.format(self.r.getWidth())
+
+    def clock(self):
+        if (self.load.get()):
+            self.r.prepare(self.a.get() + self.getParameterValue('table'))
+
+
+class ParamComb(py4hw.Logic):
+    """combinational use of two parameters in a transpiled propagate()"""
+
+    def __init__(self, parent, name, a, r, lo, hi):
+        super().__init__(parent, name)
+        self.a = self.addIn('a', a)
+        self.r = self.addOut('r', r)
+        self.addParameter('LO', lo)
+        self.addParameter('HI', hi)
+
+    def propagate(self):
+        if (self.a.get() < self.getParameterValue('LO')):
+            self.r.put(self.getParameterValue('LO'))
+        else:
+            self.r.put(self.a.get() & self.getParameterValue('HI'))
+
+
+class ParamMid(py4hw.Logic):
+    """structural block with its own parameter `pname` (value: literal or a Parameter of ITS parent) that it hands to
+    its children: forwarded under the child's name INIT (same or different from pname), as a literal, to a reserved-word
+    parameter, to two parameters of a combinational child, and to an inlined ShiftLeftConstant"""
+
+    def __init__(self, parent, name, a, load, r, value, pname, modes, child_kw=False):
         super().__init__(parent, name)
         self.addIn('a', a)
         self.addIn('load', load)
         self.addOut('r', r)
-        self.addParameter(pname, init_value)
-        r1 = self.wire('r1', r.getWidth())
-        r2 = self.wire('r2', r.getWidth())
-        ParamReg(self, 'p1', a, load, r1, self.getParameter(pname), pname)
-        ParamReg(self, 'p2', a, load, r2, 7 if direct else self.getParameter(pname), pname)
-        py4hw.Add(self, 'add', r1, r2, r)
+        self.addParameter(pname, value)
+        w = r.getWidth()
+        cur = a
+        for k, mode in enumerate(modes):
+            nxt = r if k == len(modes) - 1 else self.wire('t{}'.format(k), w)
+            v = self.getParameter(pname) if mode in ('forward', 'comb', 'shift') else 3 + k
+            if mode == 'comb':
+                ParamComb(self, 'c{}'.format(k), cur, nxt, v, 5)
+            elif mode == 'shift':
+                py4hw.ShiftLeftConstant(self, 's{}'.format(k), cur, v, nxt)
+            elif child_kw:
+                ParamRegKw(self, 'p{}'.format(k), cur, load, nxt, v)
+            else:
+                ParamReg(self, 'p{}'.format(k), cur, load, nxt, v)
+            cur = nxt
 
 
-def build_param(w=8, pname='INIT', direct=False):
+class ParamOuter(py4hw.Logic):
+    """two-level chain: OUTER parameter -> ParamMid parameter -> child parameter"""
+
+    def __init__(self, parent, name, a, load, r, value, outer, pname, modes, forward=True):
+        super().__init__(parent, name)
+        self.addIn('a', a)
+        self.addIn('load', load)
+        self.addOut('r', r)
+        self.addParameter(outer, value)
+        t = self.wire('m', r.getWidth())
+        ParamMid(self, 'mid0', a, load, t, self.getParameter(outer) if forward else 9, pname, modes)
+        ParamMid(self, 'mid1', t, load, r, self.getParameter(outer), pname, list(reversed(modes)))
+
+
+def build_param(w=8, pname='INIT', modes=('forward', 'literal'), levels=1, outer='BASE', child_kw=False, forward=True):
     hw = py4hw.HWSystem()
     a, load, r = hw.wire('a', w), hw.wire('load'), hw.wire('r', w)
-    dut = ParamTop(hw, 'test', a, load, r, 1, pname, direct)
+    if levels == 1:
+        dut = ParamMid(hw, 'test', a, load, r, 1, pname, list(modes), child_kw)
+    else:
+        dut = ParamOuter(hw, 'test', a, load, r, 1, outer, pname, list(modes), forward)
     return hw, dut
